@@ -290,6 +290,8 @@ def eq(a, b):
     if _isboolish(a) and _isboolish(b):
         return toz(a) == toz(b)
     x, y = _pair(a, b)
+    if x.eq(y):
+        return True  # the same hash-consed term on both sides: equal for every value (reflexivity), no query needed
     return x == y
 
 
